@@ -145,6 +145,18 @@ def scenarios(rng):
                         new_blobs=[dg("sha256", art2)], artifact=(d1, dg("sha256", art2))))
     idx = index_manifest([desc(MT_OCI_M, m1)], annotations={"i": "1"})
     out.append(Scenario("index-push", conf, base, manifest_put(repo, "v2", idx, ctype=MT_OCI_I), probes(extra_digests=[dg("sha256", idx)]), new_blobs=[dg("sha256", idx)]))
+    # manifests that index.json reaches only through two levels of indexes (an index listing an index listing an image; an index
+    # artifact listing images): acknowledged and served by digest, they are found again by whoever opens the directory next
+    idx1 = index_manifest([desc(MT_OCI_M, m2)], annotations={"level": "1"})
+    idx2 = index_manifest([desc(MT_OCI_I, idx1)], annotations={"level": "2"})
+    nest_hist = base + [upload_post(repo, digest=dg("sha256", l2), body=l2), manifest_put(repo, d2, m2, ctype=MT_OCI_M), manifest_put(repo, dg("sha256", idx1), idx1, ctype=MT_OCI_I)]
+    out.append(Scenario("nested-index-push", conf, nest_hist, manifest_put(repo, "v2", idx2, ctype=MT_OCI_I),
+                        probes(extra_digests=[dg("sha256", idx1), dg("sha256", idx2)]), new_blobs=[dg("sha256", idx2)]))
+    sd1 = {"mediaType": MT_OCI_M, "digest": d1, "size": len(m1)}
+    aidx = index_manifest([desc(MT_OCI_M, m2)], subject=sd1, artifact_type="application/vnd.example.bundle", annotations={"bundle": "1"})
+    out.append(Scenario("index-artifact-push", conf, base + [upload_post(repo, digest=dg("sha256", l2), body=l2), manifest_put(repo, d2, m2, ctype=MT_OCI_M)],
+                        manifest_put(repo, dg("sha256", aidx), aidx, ctype=MT_OCI_I), probes(extra_digests=[dg("sha256", aidx)]), new_blobs=[dg("sha256", aidx)],
+                        artifact=(d1, dg("sha256", aidx))))
     out.append(Scenario("tag-delete", conf, base + [upload_post(repo, digest=dg("sha256", l2), body=l2), manifest_put(repo, "v2", m2, ctype=MT_OCI_M)],
                         manifest_delete(repo, "v2"), probes()))
     out.append(Scenario("manifest-delete", conf, base + [upload_post(repo, digest=dg("sha256", l2), body=l2), manifest_put(repo, "v2", m2, ctype=MT_OCI_M)],
